@@ -53,8 +53,10 @@ type parker struct {
 // reqLog is the private log of one stress request. It travels with the request (context value), so the instrumented
 // handlers share no memory and take no lock: a lock here would order the requests and hide races from the detector.
 type reqLog struct {
-	log   [][]any
-	param string
+	log     [][]any
+	param   string
+	bg      sync.WaitGroup
+	copyBad string
 }
 
 type reqLogKey struct{}
@@ -63,6 +65,23 @@ func (p *parker) handler(tag []any) rux.HandlerFunc {
 	return func(c *rux.Context) {
 		if rl, ok := c.Req.Context().Value(reqLogKey{}).(*reqLog); ok {
 			rl.log = append(rl.log, tag)
+			if tag[0] == "main" && len(tag) > 1 && tag[1] == "a" {
+				// a background job keeps a Copy() of the context (documented use) and reads it after the request is over,
+				// while the pooled context already serves other requests
+				c.Set("job", c.Req.Header.Get("X-Req"))
+				cp := c.Copy()
+				rl.bg.Add(1)
+				go func() {
+					defer rl.bg.Done()
+					for i := 0; i < 50; i++ {
+						if v, _ := cp.Get("job"); v != cp.Req.Header.Get("X-Req") {
+							rl.copyBad = fmt.Sprintf("a Copy() of the context sees job=%v", v)
+							return
+						}
+						runtime.Gosched()
+					}
+				}()
+			}
 			if tag[0] == "main" {
 				rl.param = c.Param("id")
 				c.Text(200, "main:"+c.Req.Header.Get("X-Req")+":"+rl.param)
@@ -415,6 +434,14 @@ func serveStress(s *Summary, rng *rand.Rand, n int, out *traceWriter) {
 						r.ServeHTTP(rec, req)
 					}()
 					got, par := rl.log, rl.param
+					if wr.Intn(4) == 0 {
+						rl.bg.Wait()
+						if rl.copyBad != "" {
+							mu.Lock()
+							bad = append(bad, fmt.Sprintf("%s %s: %s", kind, path, rl.copyBad))
+							mu.Unlock()
+						}
+					}
 					k2 := kind
 					if kind == "na" {
 						k2 = "nf"
